@@ -61,7 +61,7 @@ pub fn def() -> CheckDef {
             let (small, models, pairs) = plan(t);
             vec![
                 ("distinct_nontrivial", small / 4),
-                ("laws_checked", (small + models.len() as u64 * pairs) * 20),
+                ("laws_checked", (small + models.len() as u64 * pairs) * 12),
                 ("osym_vs_oracle", small / 2),
                 ("big_model_cases_completed", (models.len() as u64 * pairs) / 2),
             ]
